@@ -50,7 +50,7 @@ type mspec struct {
 	seq      string // odd | even : seq_no of A's rpc_error message (odd = the client must ack it)
 	inflight int
 	answerB  string // obj | error : what B answers to the repeated request
-	sched    string // free | ackclose : ackclose = the receive loop's ack of A's rpc_error is held until the caller has closed the old connection
+	sched    string // free | ackclose | readclose : the receive loop's ack of A's rpc_error (ackclose) / its next read (readclose) is held until the caller has closed the old connection
 }
 
 func (s mspec) String() string {
@@ -95,6 +95,12 @@ func migrateScenarios(thorough bool) []mspec {
 	// servers send it); the receive loop writes that ack after the caller has closed the connection to A
 	l = append(l, mspec{"direct", 303, "PHONE_MIGRATE_2", "odd", 0, "obj", "ackclose"})
 	l = append(l, mspec{"direct", 303, "PHONE_MIGRATE_2", "odd", 1, "obj", "ackclose"})
+	// and: the receive loop goes back to reading after the caller has stopped the routines
+	l = append(l, mspec{"direct", 303, "PHONE_MIGRATE_2", "even", 0, "obj", "readclose"})
+	l = append(l, mspec{"newclient", 303, "PHONE_MIGRATE_12", "even", 1, "obj", "readclose"})
+	// and: the old receive loop goes back to reading only after the caller has switched to B and repeated the request
+	l = append(l, mspec{"direct", 303, "PHONE_MIGRATE_2", "even", 0, "obj", "readnew"})
+	l = append(l, mspec{"direct", 303, "PHONE_MIGRATE_2", "even", 2, "obj", "readnew"})
 	// configured data centre: DC 2 (and 12) live at B
 	add("direct", 303, "PHONE_MIGRATE_2", "even", 0, "obj")
 	add("direct", 303, "PHONE_MIGRATE_2", "odd", 0, "obj")
@@ -124,6 +130,15 @@ func migrateScenarios(thorough bool) []mspec {
 	add("direct", 303, "NETWORK_MIGRATE_2", "odd", 0, "obj")
 	add("direct", 400, "PHONE_NUMBER_INVALID", "even", 0, "obj")
 	if thorough {
+		for _, sc := range []string{"ackclose", "readclose", "readnew"} {
+			for _, setup := range []string{"direct", "newclient"} {
+				for inflight := 0; inflight <= 2; inflight++ {
+					for _, t := range []string{"PHONE_MIGRATE_2", "PHONE_MIGRATE_12"} {
+						l = append(l, mspec{setup, 303, t, map[bool]string{true: "odd", false: "even"}[sc == "ackclose"], inflight, "obj", sc})
+					}
+				}
+			}
+		}
 		for _, t := range []string{"PHONE_MIGRATE_2", "PHONE_MIGRATE_12", "PHONE_MIGRATE_+2", "PHONE_MIGRATE_02", "PHONE_MIGRATE_7", "PHONE_MIGRATE_1000",
 			"PHONE_MIGRATE_9223372036854775807", "PHONE_MIGRATE_-9223372036854775808", "PHONE_MIGRATE_9223372036854775808", "PHONE_MIGRATE_ 2", "PHONE_MIGRATE_2 ",
 			"PHONE_MIGRATE_%d", "phone_migrate_2", "XPHONE_MIGRATE_2", "FILE_MIGRATE_2", "STATS_MIGRATE_2", "PHONE_MIGRATE_X", ""} {
@@ -157,52 +172,84 @@ func migrateMain(args []string) {
 	if v := os.Getenv("VERIF_E2E_REPEAT"); v != "" {
 		reps, _ = strconv.Atoi(v)
 	}
-	n := 0
+	type job struct {
+		id string
+		s  mspec
+	}
+	var jobs []job
 	for rep := 0; rep < reps; rep++ {
 		for _, s := range migrateScenarios(args[0] == "thorough") {
-			n++
-			id := strconv.Itoa(n)
-			cmd := exec.Command(os.Args[0], "migrate", "one", id, s.String())
-			var so, se bytes.Buffer
-			cmd.Stdout, cmd.Stderr = &so, &se
-			done := make(chan error, 1)
-			if err := cmd.Start(); err != nil {
-				die("cannot start child: %v", err)
-			}
-			go func() { done <- cmd.Wait() }()
-			status := "0"
-			select {
-			case err := <-done:
-				if err != nil {
-					status = "died"
-				}
-			case <-time.After(6*watchdog + 10*time.Second):
-				cmd.Process.Kill()
-				<-done
-				status = "timeout"
-			}
-			complete := false
-			for _, l := range strings.Split(so.String(), "\n") {
-				if l == "" {
-					continue
-				}
-				if l == "END" {
-					complete = true
-					continue
-				}
-				out.f.WriteString(l + "\n")
-			}
-			if status == "0" && !complete {
-				status = "died"
-			}
-			tail := se.String()
-			if len(tail) > 6000 {
-				tail = tail[:3000] + "\n...\n" + tail[len(tail)-3000:]
-			}
-			out.Line("X", id, status, vc.HexS(tail))
+			jobs = append(jobs, job{strconv.Itoa(len(jobs) + 1), s})
+		}
+	}
+	results := make([][]string, len(jobs))
+	sem := make(chan struct{}, 4) // scenarios are separate processes on their own ports
+	var wg sync.WaitGroup
+	for i := range jobs {
+		wg.Add(1)
+		sem <- struct{}{}
+		go func(i int) {
+			defer func() { <-sem; wg.Done() }()
+			results[i] = runChild("migrate", jobs[i].id, jobs[i].s.String())
+		}(i)
+	}
+	wg.Wait()
+	for _, ls := range results {
+		for _, l := range ls {
+			out.f.WriteString(l + "\n")
 		}
 	}
 	out.Line("END")
+}
+
+// runChild runs one scenario in a child process and returns its observation lines plus the X line.
+func runChild(sub, id, spec string) []string {
+	cmd := exec.Command(os.Args[0], sub, "one", id, spec)
+	var so, se bytes.Buffer
+	cmd.Stdout, cmd.Stderr = &so, &se
+	// the child's files live below a directory of ours: removed here even if the child dies
+	base, err := os.MkdirTemp(os.Getenv("VERIF_E2E_SCRATCH"), "verif-e2e-child-")
+	if err != nil {
+		die("mkdir: %v", err)
+	}
+	defer os.RemoveAll(base)
+	cmd.Env = append(os.Environ(), "VERIF_E2E_SCRATCH="+base)
+	done := make(chan error, 1)
+	if err := cmd.Start(); err != nil {
+		die("cannot start child: %v", err)
+	}
+	go func() { done <- cmd.Wait() }()
+	status := "0"
+	select {
+	case err := <-done:
+		if err != nil {
+			status = "died"
+		}
+	case <-time.After(6*watchdog + 10*time.Second):
+		cmd.Process.Kill()
+		<-done
+		status = "timeout"
+	}
+	complete := false
+	var lines []string
+	for _, l := range strings.Split(so.String(), "\n") {
+		if l == "" {
+			continue
+		}
+		if l == "END" {
+			complete = true
+			continue
+		}
+		lines = append(lines, l)
+	}
+	if status == "0" && !complete {
+		status = "died"
+	}
+	tail := se.String()
+	if len(tail) > 6000 {
+		tail = tail[:3000] + "\n...\n" + tail[len(tail)-3000:]
+	}
+	return append(lines, strings.Join([]string{"X", id, status, vc.HexS(tail)}, "\t"))
 }
 
 // ---- one scenario (child process) ----
@@ -262,6 +309,8 @@ func classifyErr(err error, base int) (class string, e *mtproto.ErrResponseCode)
 type gate struct {
 	mu            sync.Mutex
 	rx            int64
+	rxPoint       string
+	freeCaller    bool
 	armed         bool
 	rxHeld        bool
 	callerHeld    bool
@@ -290,8 +339,8 @@ func (g *gate) hook(point string, id int64) {
 	if point == "read" && g.rx == 0 {
 		g.rx = me
 	}
-	holdRx := g.armed && point == "prelock" && me == g.rx && !g.rxHeld
-	holdCaller := g.armed && point == "reconnecting" && me != g.rx && !g.callerHeld
+	holdRx := g.armed && point == g.rxPoint && me == g.rx && !g.rxHeld
+	holdCaller := g.armed && !g.freeCaller && point == "reconnecting" && me != g.rx && !g.callerHeld
 	if holdRx {
 		g.rxHeld = true
 	}
@@ -337,7 +386,6 @@ func waitNonAck(s *refserver.Server, n int, d time.Duration) []refserver.Frame {
 func migrateOne(id string, sp mspec) {
 	o := &mobs{id: id}
 	dir := scratch()
-	defer os.RemoveAll(dir)
 	seed := vc.Seed()*7919 + uint64(len(sp.String()))
 	A, err := refserver.New(refserver.Options{Seed: seed})
 	if err != nil {
@@ -349,7 +397,9 @@ func migrateOne(id string, sp mspec) {
 	}
 	sess := filepath.Join(dir, "session.json")
 	gt := &gate{rxParked: make(chan struct{}), rxRelease: make(chan struct{}), callerParked: make(chan struct{}), callerRelease: make(chan struct{})}
-	if sp.sched == "ackclose" {
+	if sp.sched != "free" {
+		gt.rxPoint = map[string]string{"ackclose": "prelock", "readclose": "read", "readnew": "read"}[sp.sched]
+		gt.freeCaller = sp.sched == "readnew"
 		mtproto.VerifYieldHook = gt.hook
 	}
 	var m *mtproto.MTProto
@@ -398,24 +448,17 @@ func migrateOne(id string, sp mspec) {
 		A.OnFrame(nil)
 		if st != "ok" || cerr != nil {
 			o.put("newclient", st+":"+fmt.Sprint(cerr)+det)
-			fmt.Println("END")
-			return
+			finish()
 		}
 		m = cl.MTProto
 		select {
 		case f := <-initSeen:
-			// the wrappers are not registered constructors: decode by naming the type
-			iw := &telegram.InvokeWithLayerParams{}
-			ok := tl.Decode(f.Body, iw) == nil && iw.Layer == telegram.ApiVersion
-			if ok {
-				ic, _ := iw.Query.(*telegram.InitConnectionParams)
-				isGet := false
-				if ic != nil {
-					_, isGet = ic.Query.(*telegram.HelpGetConfigParams)
-				}
-				ok = ic != nil && isGet && ic.ApiID == 94575
-			}
-			o.put("newclient-init-request", map[bool]string{true: "invokeWithLayer(initConnection(help.getConfig))", false: "unexpected:" + f.DecodeErr}[ok])
+			// the generic wrappers are not registered constructors, so the server cannot decode the
+			// body: compare it with the bytes of the request NewClient is documented to send
+			want, _ := tl.Marshal(&telegram.InvokeWithLayerParams{Layer: telegram.ApiVersion, Query: &telegram.InitConnectionParams{
+				ApiID: 94575, DeviceModel: "Unknown", SystemVersion: runtime.GOOS + "/" + runtime.GOARCH, AppVersion: "v0.0.0",
+				SystemLangCode: "en", LangCode: "en", Query: &telegram.HelpGetConfigParams{}}})
+			o.put("newclient-init-request", map[bool]string{true: "invokeWithLayer(initConnection(help.getConfig))", false: "unexpected"}[bytes.Equal(want, f.Body)])
 		default:
 			o.put("newclient-init-request", "none")
 		}
@@ -518,12 +561,22 @@ func migrateOne(id string, sp mspec) {
 	}
 	gt.arm()
 	_ = A.Send(refserver.Msg{MsgID: A.NextMsgID(true), SeqNo: seq, Body: refserver.RpcResult(req.MsgID, refserver.RpcError(int32(sp.code), sp.text))})
-	if sp.sched == "ackclose" {
+	if sp.sched != "free" {
 		ok := true
 		select {
 		case <-gt.rxParked:
 		case <-time.After(watchdog):
 			o.put("sched", "receive-loop-never-acked")
+			ok = false
+		}
+		if ok && sp.sched == "readnew" {
+			// the caller runs on: new connection, request repeated; B keeps quiet until the old loop is released
+			if len(waitNonAck(B, 1, watchdog)) < 1 {
+				o.put("sched", "request-never-repeated")
+			} else {
+				time.Sleep(20 * time.Millisecond) // B's connection has its own receive loop, waiting in its read
+				o.put("sched", sp.sched)
+			}
 			ok = false
 		}
 		if ok {
@@ -545,7 +598,8 @@ func migrateOne(id string, sp mspec) {
 				}
 				time.Sleep(time.Millisecond)
 			}
-			o.put("sched", "ack-after-close")
+			time.Sleep(20 * time.Millisecond)
+			o.put("sched", sp.sched)
 		}
 		close(gt.rxRelease)
 		time.Sleep(60 * time.Millisecond) // the receive loop writes its ack on the closed connection now
@@ -647,7 +701,7 @@ loop:
 		return n
 	}
 	if sp.inflight > 0 {
-		grace := 700 * time.Millisecond
+		grace := 300 * time.Millisecond
 		time.Sleep(grace)
 		o.put("inflight-finished-unaided", finished())
 		// whoever the client is connected to now answers the old ids (a real data centre would not
@@ -720,9 +774,7 @@ loop:
 	}
 	// leave the receive loop a moment to trip over anything the switch left behind
 	time.Sleep(50 * time.Millisecond)
-	fmt.Println("END")
-	os.Stdout.Sync()
-	os.Exit(0)
+	finish()
 }
 
 var _ = tl.WordLen
